@@ -6,6 +6,26 @@ use crate::util::*;
 
 pub fn generate(r: &mut Rng, tier: &str, emit: &mut dyn FnMut(String)) {
     let n = if tier == "thorough" { 1500 } else { 150 };
+    // responder side: probe schedule, announcements, goodbye repeats, retries after a lost
+    // tiebreak, renames - every one of them is timed work the daemon must wake itself for
+    for _ in 0..n / 3 {
+        let tb = r.chance(1, 3);
+        let k = crate::c07::Knobs {
+            tag: "C12",
+            topo: *r.pick(&[0u64, 0, 1, 2, 3]),
+            steps: r.range(2, 6),
+            w_register: 4,
+            w_rereg: if tb { 0 } else { 1 },
+            w_unregister: 3,
+            w_query: 1,
+            w_tiebreak: if tb { 2 } else { 0 },
+            w_conflict: if r.chance(1, 3) { 1 } else { 0 },
+            w_jump: 0,
+            shutdown: false,
+            jitter: None,
+        };
+        emit(crate::c07::gen_history(r, &k).replacen("sim C12", "sim2 C12", 1));
+    }
     for i in 0..n {
         if i % 5 == 3 {
             // hostname searches without any browse: the refresh marks of address records are
